@@ -106,7 +106,12 @@ def accessorOp (j : Json) : Except String Res := do
   | "markup" =>
     pure { model := resJson (fun _ => Json.bool true) (Obj.getMarkupKind kvs key key2), nontrivial := present }
   | _ => throw "bad accessor" : Except String Res)
-  pure { r with preds := r.preds ++ [("empty_string_is_absent", absentOk), ("string_sanitised_nonempty", stringOk)] }
+  -- the answer does not depend on which accessors were called on the document before
+  let aloneOk : Bool := match j.getObjVal? "alone" with
+    | .ok a => a == impl
+    | .error _ => true
+  pure { r with preds := r.preds ++ [("empty_string_is_absent", absentOk), ("string_sanitised_nonempty", stringOk),
+                                      ("answer_independent_of_earlier_accessors", aloneOk)] }
 
 end Ops
 
@@ -176,13 +181,22 @@ def configOp (j : Json) : Except String Res := do
             | some v => v ≤ 255 && toString v == q
             | none => false
         | _ => false
-      hookLen ≥ 1 && n "cache" ≥ 1 && n "context" ≥ 0 && n "timeout" ≥ 0 &&
+      -- the sizes are used as Go `int`s later on (lru.New(int(size)), uint(context)): in range
+      hookLen ≥ 1 && n "cache" ≥ 1 && n "cache" < 2 ^ 63 && n "context" ≥ 0 && n "context" < 2 ^ 63 &&
+        n "timeout" ≥ 0 && n "timeout" < 2 ^ 63 &&
         colourOk "primary" && colourOk "error" && colourOk "highlight" && colourOk "code"
     | _ => true
+  -- the hook of an accepted configuration is the configured one, entry by entry (C20)
+  let hookOk : Bool := match impl.getObjVal? "ok", raw.getObjVal? "hook" with
+    | .ok c, .ok (Json.arr a) =>
+      if a.all (fun v => match v with | Json.str _ => true | _ => false) then
+        (c.getObjVal? "hook").toOption == some (Json.arr a)
+      else true
+    | _, _ => true
   match Config.postprocess r with
-  | .error dg => pure { model := Json.mkObj [("reject", Json.str (diagKey dg))], preds := [("accepted_config_is_safe", safeOk)] }
+  | .error dg => pure { model := Json.mkObj [("reject", Json.str (diagKey dg))], preds := [("accepted_config_is_safe", safeOk), ("hook_as_configured", hookOk)] }
   | .ok p =>
-    pure { preds := [("accepted_config_is_safe", safeOk)], model := Json.mkObj [("ok", Json.mkObj [
+    pure { preds := [("accepted_config_is_safe", safeOk), ("hook_as_configured", hookOk)], model := Json.mkObj [("ok", Json.mkObj [
       ("hook", jsl p.hook), ("primary", js p.colors.primary), ("error", js p.colors.error),
       ("highlight", js p.colors.highlight), ("code", js p.colors.code),
       ("context", Json.num p.context), ("timeout", Json.num p.timeoutSeconds), ("cache", Json.num p.cacheSize)])] }
